@@ -115,7 +115,7 @@ N3_RE = re.compile(r'^(\s*)([\w.]+)\.clone_from\(&([\w.]+)\);\s*$')
 N2_RULES = {
     'server.rs': {
         'name': 'initialize_write',
-        'open': re.compile(r'^(\s*)let initialize_write = &mut \|\| -> Result<\(\), Box<dyn Error>> \{\s*$'),
+        'open': re.compile(r'^(\s*)let initialize_write = &mut \|([^|]*)\| -> Result<\(\), Box<dyn Error>> \{\s*$'),
         'params': 'this: &mut Server, options: &mut [TransferOption], to: &SocketAddr, file_path: &PathBuf',
         'args': 'self, options, to, file_path',
     },
@@ -131,7 +131,8 @@ def normalise(fname, text):
             m = n2['open'].match(line)
             if m and n2_indent is None:
                 n2_indent = m.group(1)
-                new = '%sfn %s(%s) -> Result<(), Box<dyn Error>> {' % (n2_indent, n2['name'], n2['params'])
+                own = m.group(2).strip()
+                new = '%sfn %s(%s%s) -> Result<(), Box<dyn Error>> {' % (n2_indent, n2['name'], n2['params'], (', ' + own) if own else '')
                 notes.append({'file': fname, 'line': n, 'rule': 'N2 lambda lifting (closure head)', 'from': line.strip(), 'to': new.strip()})
                 line = new
             elif n2_indent is not None and n2_indent != 'done':
@@ -143,8 +144,9 @@ def normalise(fname, text):
                     new = re.sub(r'\bself\b', 'this', line)
                     notes.append({'file': fname, 'line': n, 'rule': 'N2 lambda lifting (self -> this)', 'from': line.strip(), 'to': new.strip()})
                     line = new
-            elif n2_indent == 'done' and (n2['name'] + '()') in line:
-                new = line.replace(n2['name'] + '()', '%s(%s)' % (n2['name'], n2['args']))
+            elif n2_indent == 'done' and re.search(r'\b%s\(' % n2['name'], line):
+                new = re.sub(r'\b%s\(\s*\)' % n2['name'], '%s(%s)' % (n2['name'], n2['args']), line)
+                new = re.sub(r'\b%s\((?!%s)' % (n2['name'], re.escape(n2['args'])), '%s(%s, ' % (n2['name'], n2['args']), new)
                 notes.append({'file': fname, 'line': n, 'rule': 'N2 lambda lifting (call)', 'from': line.strip(), 'to': new.strip()})
                 line = new
         m = N1_RE.match(line)
